@@ -530,8 +530,13 @@ class AtomicWriter(Generic[IOKindT]):
     ) -> None:
         # Delegate down to close the file like normal.
         if self.temp is not None:
-            self.temp.__exit__(exc_type, exc_value, tback)
-            self.temp = None
+            temp, self.temp = self.temp, None
+            try:
+                temp.__exit__(exc_type, exc_value, tback)
+            except BaseException:
+                # Flushing/closing failed, so the data is incomplete. Discard it.
+                self._discard_temp()
+                raise
         if self._temp_name is None:
             # Exit without enter?
             return None
@@ -543,9 +548,22 @@ class AtomicWriter(Generic[IOKindT]):
                 pass
         else:
             # No exception, commit changes
-            self._temp_name.replace(self.filename)
+            try:
+                self._temp_name.replace(self.filename)
+            except BaseException:
+                # Couldn't move it into place, don't leave the temporary file behind.
+                self._discard_temp()
+                raise
 
         return None  # Don't cancel the exception.
+
+    def _discard_temp(self) -> None:
+        """Remove the temporary file after a failure, ignoring further errors."""
+        if self._temp_name is not None:
+            try:
+                self._temp_name.unlink()
+            except OSError:
+                pass
 
 
 # Import these, so people can reference 'srctools.Vec' instead of 'srctools.math.Vec'.
